@@ -30,33 +30,80 @@ class Roles:
     def amp_field(self):
         return [f['name'] for f in self.sim['fields'] if 'std::complex<double>' in f['type'] and 'vector' in f['type']][0]
 
+    def _pick(self, cands, by_effect, name_hint, what):
+        """unique candidate by type; if a maintainer added a sibling field of the same type, decide by effect (how the
+        simulator uses it), then by the name hint; never guess between two"""
+        if len(cands) == 1:
+            return cands[0]
+        if len(cands) > 1:
+            e = [c for c in cands if by_effect(c)]
+            if len(e) == 1:
+                return e[0]
+            h = [c for c in (e or cands) if name_hint in c.lower()]
+            if len(h) == 1:
+                return h[0]
+        raise AnalysisBroken('simulator %s not found uniquely' % what)
+
+    def _sim_bodies(self):
+        return [f for f in self.p.methods_of(self.sim['name']) if f.body]
+
     @property
     def sim_measured_field(self):
-        c = [f['name'] for f in self.sim['fields'] if f['type'].startswith('std::vector<bool')]
-        if len(c) != 1:
-            raise AnalysisBroken('simulator measured-flag vector not found uniquely')
-        return c[0]
+        def find():
+            c = [f['name'] for f in self.sim['fields'] if f['type'].startswith('std::vector<bool')]
+
+            def guards_a_throw(name):
+                # read under a branch that leads to a throw whose message talks about measurement
+                for f in self._sim_bodies():
+                    for t in SX.walk(f.body):
+                        if t['k'] == 'throw' and 'measured' in SX.show(t).lower():
+                            for i_ in SX.walk(f.body):
+                                if i_['k'] == 'if' and any(x is t for x in SX.walk(i_.get('t'))) and \
+                                        any(x['k'] == 'member' and x['name'] == name for x in SX.walk(i_.get('c'))):
+                                    return True
+                return False
+            return self._pick(c, guards_a_throw, 'measured', 'measured-flag vector')
+        return self._memo('sim_measured_field', find)
 
     @property
     def sim_ops_field(self):
-        c = [f['name'] for f in self.sim['fields'] if f['type'].startswith('std::vector<std::string')]
-        if len(c) != 1:
-            raise AnalysisBroken('simulator op-log vector not found uniquely')
-        return c[0]
+        def find():
+            c = [f['name'] for f in self.sim['fields'] if f['type'].startswith('std::vector<std::string')]
+
+            def appended_with_qasm(name):
+                return any(n['k'] == 'mcall' and SX.short(n['callee']) in ('emplace_back', 'push_back') and SX.is_this_member(SX.strip(n.get('obj')), name) and 'q[' in SX.show(n)
+                           for f in self._sim_bodies() for n in SX.walk(f.body))
+            return self._pick(c, appended_with_qasm, 'ops', 'op-log vector')
+        return self._memo('sim_ops_field', find)
 
     @property
     def sim_count_field(self):
-        c = [f['name'] for f in self.sim['fields'] if f['type'] == 'int']
-        if len(c) != 1:
-            raise AnalysisBroken('simulator qubit-count field not found uniquely')
-        return c[0]
+        def find():
+            c = [f['name'] for f in self.sim['fields'] if f['type'] == 'int']
+
+            def sizes_the_register(name):
+                return any(n['k'] == 'member' and n['name'] == name for f in self._sim_bodies() if f.short == 'getQasm' for n in SX.walk(f.body))
+            return self._pick(c, sizes_the_register, 'qubit', 'qubit-count field')
+        return self._memo('sim_count_field', find)
 
     @property
     def sim_log_flag(self):
-        c = [f['name'] for f in self.sim['fields'] if f['type'] == 'bool']
-        if len(c) != 1:
-            raise AnalysisBroken('simulator log switch not found uniquely')
-        return c[0]
+        def find():
+            c = [f['name'] for f in self.sim['fields'] if f['type'] == 'bool']
+            try:
+                ops = self.sim_ops_field
+            except AnalysisBroken:
+                ops = None
+
+            def guards_logging(name):
+                for f in self._sim_bodies():
+                    for i_ in SX.walk(f.body):
+                        if i_['k'] == 'if' and any(x['k'] == 'member' and x['name'] == name for x in SX.walk(i_.get('c'))) and \
+                                any(x['k'] == 'mcall' and ops and SX.is_this_member(SX.strip(x.get('obj')), ops) for x in SX.walk(i_.get('t'))):
+                            return True
+                return False
+            return self._pick(c, guards_logging, 'log', 'log switch')
+        return self._memo('sim_log_flag', find)
 
     def sim_methods(self):
         return [f for f in self.p.methods_of(self.sim['name']) if f.kind == 'method']
